@@ -322,6 +322,7 @@ void Exec::check_accessors(Obj &o, const char *when, bool must_be_optimal) {
 		probe("c05.accessor_served_after_edit");
 	}
 	std::vector<Q> vx = vec(x, n), vpi = vec(pi, m), vrc = vec(rc, n), vsl = vec(sl, m); Q v = lib_to_q(val.at(0));
+	{ Fnv h; for (auto &q : vx) h.add(qstr(q)); for (auto &q : vpi) h.add(qstr(q)); if (!r_rc) for (auto &q : vrc) h.add(qstr(q)); if (!r_sl) for (auto &q : vsl) h.add(qstr(q)); if (!r_v) h.add(qstr(v)); T("  solution-digest " + hex64(h.h)); }
 	Verdict vd = check_optimal(o.m, vx, vpi, r_rc ? 0 : &vrc, r_sl ? 0 : &vsl, r_v ? 0 : &v);
 	if (!vd.ok) { violate(prop, std::string(must_be_optimal ? "accessor-cert:" : "stale-solution:") + ctx, vd.why); return; }
 	if (must_be_optimal) nontrivial("C01");
